@@ -72,13 +72,17 @@ impl GenericSingleObjectWriter {
         if !Self::HEADER_LENGTH_RANGE.contains(&original_length) {
             Err(Details::IllegalSingleObjectWriterState.into())
         } else {
-            write_value_ref_owned_resolved(&self.resolved, v, &mut self.buffer)?;
-            writer
-                .write_all(&self.buffer)
-                .map_err(Details::WriteBytes)?;
+            let result = write_value_ref_owned_resolved(&self.resolved, v, &mut self.buffer)
+                .and_then(|_| {
+                    writer
+                        .write_all(&self.buffer)
+                        .map_err(|e| Details::WriteBytes(e).into())
+                });
             let len = self.buffer.len();
+            // Also when encoding or writing failed: only the header may stay in the buffer,
+            // otherwise the next message would start with the remains of this one.
             self.buffer.truncate(original_length);
-            Ok(len)
+            result.map(|()| len)
         }
     }
 
